@@ -136,6 +136,8 @@ type Sched struct {
 	sitesHit  map[string]int
 	hints     map[uint64]string
 	gen       uint64
+	reserved  map[string]int
+	ctxSeq    int
 }
 
 var genCounter atomic.Uint64
@@ -234,6 +236,7 @@ func Run(t *testing.T, cfg Config, main func()) (res Result) {
 				sitesHit: map[string]int{},
 				hints:    map[uint64]string{},
 				gen:      genCounter.Add(1),
+				reserved: map[string]int{},
 			}
 			s.rootGoid = goid()
 			if cfg.Strategy == StratPCT {
@@ -329,7 +332,14 @@ func (s *Sched) self(hint string) *Task {
 		n := s.adoptSeq[hint]
 		s.adoptSeq[hint] = n + 1
 		t = &Task{ID: "~" + hint + "#" + strconv.Itoa(n), SpawnSite: "adopted:" + hint, wake: make(chan struct{}, 1), state: tsRunning, adopted: true, goid: g}
-		s.assignPrio(t)
+		if pr, ok := s.reserved[hint]; ok {
+			// the priority was drawn when the adoption was announced, by a task the scheduler
+			// had under control: goroutines adopted at one instant may arrive in any order
+			t.prio = pr
+			delete(s.reserved, hint)
+		} else {
+			s.assignPrio(t)
+		}
 		s.byGoid[g] = t
 		s.all = append(s.all, t)
 	}
@@ -549,6 +559,20 @@ func (s *Sched) eligible() []*Task {
 			copy(el[1:i+1], el[0:i])
 			el[0] = t
 			break
+		}
+	}
+	// ... unless a context deadline is due: its expiry goes first by default, as it would with the
+	// runtime's own timer goroutine (code that polls ctx.Err() in a loop would otherwise spin under
+	// the strategies that keep the current task running); any other order is a deviation the
+	// tape can choose
+	k := 0
+	for i, t := range el {
+		if strings.HasPrefix(t.ID, "~ctx") {
+			if i != k {
+				copy(el[k+1:i+1], el[k:i])
+				el[k] = t
+			}
+			k++
 		}
 	}
 	return el
